@@ -568,6 +568,16 @@ def _templates_for(T, N, suffix, quick_default):
         [c_grid("B", (0,), ("-",), (I("g", 0, 2),)), c_ext("B", "A", 0, "+", other_position=R("q", -1.0, 1.0), offset=R("off", -0.5, 0.5))])
     add("pos-to-extended2", [obj("A"), obj("B", gshape=(2, None, None)), obj("C", gshape=(1, None, None))],
         [c_pos("C", "V", (0,), (-1.0,), (-1.0,), margins=(R("m1", -0.5, 3.0),)), c_pos("B", "A", (0,), (-1.0,), (-1.0,), margins=(R("m", -1.0, 4.0),))])
+    # 18c multi-axis constraints whose axes become resolvable in different passes: S is centred on the volume by ONE position constraint
+    #     over axes (0, 1); its y size is declared, its x size only follows from a size constraint listed later, so axis 1 of that
+    #     constraint resolves one pass before axis 0.  B sits against S along x by a constraint listed before both.
+    add("multiaxis-staged", [obj("S", gshape=(None, 2, None)), obj("B", gshape=(1, 1, None))],
+        [c_pos("B", "S", (0,), (-1.0,), (1.0,), margins=(R("m", -0.5, 0.5),)), c_pos("S", "V", (0, 1), (0.0, 0.0), (0.0, 0.0), margins=(R("m1", -0.5, 0.5), R("m2", -0.5, 0.5))),
+         c_size("S", "V", (0,), props=(R("pr", 0.25, 0.75),))], shape=(N, 4, 3))
+    # the same with B also centred on the volume along y (two-axis constraint) and S positioned on all three axes (the usual scene layout)
+    add("multiaxis-staged3", [obj("S", gshape=(None, 2, 1)), obj("B", gshape=(1, 1, 1))],
+        [c_pos("B", "S", (0,), (-1.0,), (1.0,), margins=(R("m", -0.5, 0.5),)), c_pos("B", "V", (1, 2), (0.0, 0.0), (0.0, 0.0)),
+         c_pos("S", "V", (0, 1, 2), (0.0, 0.0, 0.0), (0.0, 0.0, 0.0), margins=(R("m1", -0.5, 0.5), 0, 0)), c_size("S", "V", (0,), props=(R("pr", 0.25, 0.75),))], shape=(N, 4, 3))
     # 19 longer chain (thorough)
     add("chain3", [obj("A", gshape=(2, None, None)), obj("B", gshape=(1, None, None)), obj("C", gshape=(2, None, None))],
         [c_pos("A", "V", (0,), (-1.0,), (-1.0,), margins=(R("m1", -0.5, 2.0),)), c_pos("B", "A", (0,), (-1.0,), (1.0,), margins=(R("m2", -1.0, 1.0),)),
